@@ -45,11 +45,26 @@ def run_tool(case, data, a, b, in_b, out_b):
                                                   in_format=fmt(in_b), out_format=fmt(out_b))
         return out.getvalue()
     d = tempfile.mkdtemp(prefix='verif_c19_')
-    path = os.path.join(d, 'in.bin')
+    path = os.path.join(d, case.get('fname', 'in.bin'))
     try:
         open(path, 'wb').write(data)
         import contextlib
         with contextlib.redirect_stdout(io.StringIO()):
+            if tool in ('param-cli-default', 'encode-cli-default'):
+                # no output name given: the tool picks one; it must be a NEW file (the input stays what it was)
+                before = set(os.listdir(d))
+                if tool == 'param-cli-default':
+                    from cardutil.cli import mci_ipm_param_encode as mod
+                else:
+                    from cardutil.cli import mci_ipm_encode as mod
+                rc = mod.cli_run(in_filename=path, in_encoding=a, out_encoding=b, in_format=fmt(in_b), out_format=fmt(out_b))
+                new = sorted(set(os.listdir(d)) - before)
+                if rc == -1:
+                    raise RuntimeError('tool returned -1')
+                if len(new) != 1 or open(path, 'rb').read() != data:
+                    raise RuntimeError(f'default output name: new files {new}, input file intact: '
+                                       f'{open(path, "rb").read() == data}')
+                return open(os.path.join(d, new[0]), 'rb').read()
             if tool == 'mideu':
                 from cardutil.cli import mideu
                 rc = mideu.cli_run(func=mideu.convert, input=path, sourceformat='ebcdic' if a == 'cp500' else 'ascii',
@@ -210,6 +225,12 @@ def explore(run, tier):
         for inb, outb in ((0, 0), (0, 1), (1, 0), (1, 1)):
             cases.append({'kind': 'param', 'tool': 'param', 'a': 'latin_1', 'b': 'cp500', 'inb': inb, 'outb': outb,
                           'recs': ['01', rec, '02']})
+    # command entry points with the DEFAULT output name, on input files called x.bin, x.out, x (the second leg of a
+    # round trip done with default names converts a file that is itself called *.out)
+    for fname in ('params.bin', 'params.out', 'params', 'a.b.out'):
+        for inb, outb in ((0, 1), (1, 1)):
+            cases.append({'kind': 'param', 'tool': 'param-cli-default', 'a': 'latin_1', 'b': 'cp500', 'inb': inb, 'outb': outb,
+                          'recs': ['c1c2c3', '0102030405'], 'fname': fname})
     for i in range(40 if tier == 'quick' else 400):
         recs = [bytes(rng.getrandbits(8) for _ in range(rng.choice([1, 5, 80, 300, 1012, 2000]))).hex()
                 for _ in range(rng.randrange(1, 8))]
